@@ -72,7 +72,7 @@ def sec11():
     head = ["## 11. Seeded changes and which checks catch them\n",
             "%d property-breaking changes are kept under `seeded/<name>/` (`patch.diff`, `demo.py`, `meta.json`). Each was written by a\n"
             "fresh sub-agent that saw only the text of one property and its own scratch worktree (`tools/mutation_agent_prompt.txt`;\n"
-            "six rounds (for the sixth only the owning check was run, quick tier: `tools/try_round_par.sh`); later rounds were told which sites the earlier ones had used and, from round 4 on, to hide behind rare\n"
+            "seven rounds (for the sixth and seventh only the owning check was run, quick tier: `tools/try_round_par.sh`); later rounds were told which sites the earlier ones had used and, from round 4 on, to hide behind rare\n"
             "input combinations, tolerance margins and era effects), passes the repository's test suite, and was confirmed by\n"
             "hand in a scratch worktree at the current /repo HEAD (`tools/revet_all.sh`: demo exits 1 with the change, 0 without).\n"
             "`tools/matrix.py` applies each in a scratch worktree, runs the owning check (quick, then thorough) against it through\n"
